@@ -53,8 +53,14 @@ DEST = [
     ("lostSegmentHandling", "(o l : Nat)", "lostSegmentHandling o l", ["lostSegmentHandling"],
      ["modP", "getP", "addPacket"]),
     ("vfsWriteData", "(n : String) (d : List UInt8) (o : Nat)", "vfsWriteData n d o", ["vfsWriteData"], []),
+    ("fdIndication", "(o l : Nat)", "fdIndication env o l", ["fdIndication"], ["getP", "emitInd:segrecv"]),
+    ("fdLostSegments", "(o l : Nat)", "fdLostSegments o l", ["fdLostSegments"],
+     ["transmissionMode", "lostSegmentHandling"]),
+    ("fdAfterWrite", "(o : Nat) (d : List UInt8) (r : Option FsErr)", "fdAfterWrite o d r", ["fdAfterWrite"],
+     ["getP", "modP", "declareFault"]),
+    ("fdWrite", "(o : Nat) (d : List UInt8)", "fdWrite o d", ["fdWrite"], ["getP", "vfsWriteData"]),
     ("handleFdPdu", "(o : Nat) (d : List UInt8)", "handleFdPdu env o d", ["handleFdPdu"],
-     ["modP", "getP", "emitInd:segrecv", "transmissionMode", "lostSegmentHandling", "vfsWriteData", "declareFault"]),
+     ["fdIndication", "fdLostSegments", "fdWrite", "fdAfterWrite"]),
     ("noErrorEofVerify", "", "noErrorEofVerify env", ["noErrorEofVerify"],
      ["transmissionMode", "checksumVerify", "startCheckLimitHandling"]),
     ("handleNoErrorEof", "", "handleNoErrorEof env", ["handleNoErrorEof"],
@@ -170,24 +176,38 @@ SOURCE = [
 
 
 def gen(side: str, mod: str, inv: str, sfx: str, inv_def: str, close: str, overrides: dict[str, str],
-        callsite: dict[str, str], doc: str, extra_imports: str = "") -> str:
+        callsite: dict[str, str], doc: str, extra_imports: str = "", only: list[str] | None = None,
+        inline: tuple = (), params: str = "") -> str:
+    """only: restrict to these lemma names (in table order); inline: primitives that are unfolded at
+    their call sites instead of being covered by a lemma (e.g. `modP`, whose argument decides whether
+    the invariant survives); params: extra binders every lemma takes (after `env`)"""
     table = DEST if side == "Dest" else SOURCE
+    if only is not None:
+        table = [t for t in table if t[0] in only]
+    if inline:
+        table = [(n, b, t, (u + [x for x in inline if x not in u]) if u is not None else None,
+                  [c for c in cs if c.partition(":")[0] not in inline]) for n, b, t, u, cs in table
+                 if n not in inline]
     L = [f"import CfdpVerif.Model.{side}", "import CfdpVerif.Lemmas.Monad", extra_imports,
          "/-!", "GENERATED by tools/gen_inv.py — do not edit.", "", doc, "-/",
          "set_option linter.unusedSimpArgs false", "set_option linter.unusedVariables false", "",
          f"namespace Cfdp.{side}.{mod}", f"open Cfdp Cfdp.{side}", "", inv_def, "",
          f"local macro \"close_inv\" : tactic => `(tactic| all_goals (try ({close})))", ""]
 
+    pnames = [w.strip("(){}") for w in params.replace(":", " : ").split() if w.startswith("(") or w.startswith("{")]
+    pargs = "".join(" " + x for x in pnames)
+    invp = f"{inv} env{pargs}"
+
     def ref(c: str) -> str:
         if c == "HR":
             return "hr"
         name, _, tag = c.partition(":")
         if tag == "R":
-            return f"{name}_{sfx} env r hr"
+            return f"{name}_{sfx} env{pargs} r hr"
         key = f"{name}:{tag}" if tag else name
         if key in callsite:
             return callsite[key]
-        return f"{name}_{sfx} env"
+        return f"{name}_{sfx} env{pargs}"
 
     for name, binders, term, unfold, callees in table:
         if name in overrides:
@@ -195,28 +215,28 @@ def gen(side: str, mod: str, inv: str, sfx: str, inv_def: str, close: str, overr
             L.append("")
             continue
         if binders == "R":
-            b = f"(env : Env) (r : DM Unit) (hr : Preserves ({inv} env) r)"
+            b = f"(env : Env) {params} (r : DM Unit) (hr : Preserves ({invp}) r)"
         elif binders == "RP":
-            b = f"(env : Env) (r : DM Unit) (hr : Preserves ({inv} env) r) (p : Option Pdu)"
+            b = f"(env : Env) {params} (r : DM Unit) (hr : Preserves ({invp}) r) (p : Option Pdu)"
         elif binders == "IND":
-            L.append(f"theorem segmentChunks_{sfx} (env : Env) (seg : Nat) : ∀ (fuel cur missing : Nat), "
-                     f"Preserves ({inv} env) (segmentChunks seg fuel cur missing) := by\n"
+            L.append(f"theorem segmentChunks_{sfx} (env : Env) {params} (seg : Nat) : ∀ (fuel cur missing : Nat), "
+                     f"Preserves ({invp}) (segmentChunks seg fuel cur missing) := by\n"
                      f"  intro fuel\n  induction fuel with\n"
                      f"  | zero => intro cur missing; unfold segmentChunks; preserves_with []\n"
                      f"  | succ fuel ih =>\n    intro cur missing\n    unfold segmentChunks\n"
                      f"    preserves_with [{ref('prepareFileDataPdu')}, ih]\n")
             continue
         elif binders == "IND2":
-            L.append(f"theorem handleSegmentReqs_{sfx} (env : Env) : ∀ (l : List (Nat × Nat)), "
-                     f"Preserves ({inv} env) (handleSegmentReqs l) := by\n"
+            L.append(f"theorem handleSegmentReqs_{sfx} (env : Env) {params} : ∀ (l : List (Nat × Nat)), "
+                     f"Preserves ({invp}) (handleSegmentReqs l) := by\n"
                      f"  intro l\n  induction l with\n"
                      f"  | nil => unfold handleSegmentReqs; preserves_with []\n"
                      f"  | cons q l ih =>\n    unfold handleSegmentReqs\n"
                      f"    preserves_with [{ref('handleSegmentReq')}, ih]\n")
             continue
         else:
-            b = f"(env : Env) {binders}".rstrip()
-        head = f"theorem {name}_{sfx} {b} :\n    Preserves ({inv} env) ({term}) := by"
+            b = f"(env : Env) {params} {binders}".rstrip()
+        head = f"theorem {name}_{sfx} {b} :\n    Preserves ({invp}) ({term}) := by"
         if unfold is None:      # read-only admission check
             un = ("checkInsertedPacket handleFirstPacketNotMetadataPdu transmissionMode" if side == "Dest"
                   else "checkInsertedPacket")
@@ -224,14 +244,15 @@ def gen(side: str, mod: str, inv: str, sfx: str, inv_def: str, close: str, overr
             continue
         cl = ", ".join(ref(c) for c in callees)
         L.append(f"{head}\n  unfold {' '.join(unfold)}\n  preserves_with [{cl}]\n  close_inv\n")
-    if side == "Dest":
-        L.append(f"theorem stateMachine_{sfx} (env : Env) (p : Option Pdu) :\n"
-                 f"    Preserves ({inv} env) (stateMachine env p) := by\n  unfold stateMachine\n"
+    names = {t[0] for t in table}
+    if side == "Dest" and "stateMachineWith" in names:
+        L.append(f"theorem stateMachine_{sfx} (env : Env) {params} (p : Option Pdu) :\n"
+                 f"    Preserves ({invp}) (stateMachine env p) := by\n  unfold stateMachine\n"
                  f"  apply stateMachineWith_{sfx}\n  apply stateMachineWith_{sfx}\n"
                  f"  apply stateMachineWith_{sfx}\n  exact Preserves.throw _\n")
-        L.append(f"theorem reset_{sfx} (env : Env) : Preserves ({inv} env) reset := resetInternal_{sfx} env\n")
-    else:
-        L.append(f"theorem reset_{sfx} (env : Env) : Preserves ({inv} env) reset := resetInternal_{sfx} env true\n")
+        L.append(f"theorem reset_{sfx} (env : Env) {params} : Preserves ({invp}) reset := resetInternal_{sfx} env{pargs}\n")
+    elif side == "Source" and "resetInternal" in names:
+        L.append(f"theorem reset_{sfx} (env : Env) {params} : Preserves ({invp}) reset := resetInternal_{sfx} env{pargs} true\n")
     L.append(f"end Cfdp.{side}.{mod}")
     return "\n".join(L) + "\n"
 
@@ -281,6 +302,23 @@ def main():
     files["InvSourceInds.lean"] = gen(
         "Source", "Inds", "IndsOk", "i", ALLOWED_DEF % "SrcSt", "simp_all [IndsOk]", {"emitInd": EMIT_OVERRIDE}, cs,
         "Source handler: every indication in `inds` is one the indication configuration enables (C15 gating).")
+    frame_only = ["addPacket", "addPackets", "modP", "emitInd", "getP", "transmissionMode", "assertThat",
+                  "resetInternal", "noticeOfCancellation", "declareFault", "trigger", "markComplete",
+                  "checksumVerify", "prepareEofAckPacket", "fileTransferCompleteTransition",
+                  "startCheckLimitHandling", "commonFirstPacketHandler", "commonFirstNotMd", "handleFdWithoutMd",
+                  "handleEofWithoutMd", "lostSegmentHandling", "fdIndication", "fdLostSegments", "fdAfterWrite",
+                  "noErrorEofVerify", "handleNoErrorEof",
+                  "handleEofPdu", "resetNak", "deferred", "startDeferred", "fsmAdvancement",
+                  "checkLimitHandling", "prepareFinishedPdu", "startPositiveAck", "handleFinishedPduSent",
+                  "resendFinished", "checkInserted", "getNextPacket", "cancelRequest"]
+    files["InvDestFsFrame.lean"] = gen(
+        "Dest", "FsFrame", "FsEq", "f",
+        "/-- the filestore is (still) `F` -/\n"
+        "def FsEq (_ : Env) (F : Fs) (s : DestSt) : Prop := s.fs = F",
+        "simp_all [FsEq]", {}, {},
+        "Destination handler: the methods listed here never touch the filestore (frame lemmas for C05/C16):\n"
+        "everything except `_init_vfs_handling`, `write_data` in `_handle_fd_pdu` and the deletion in\n"
+        "`_notice_of_completion` (and their callers).", only=frame_only, params="(F : Fs)")
     for n, t in files.items():
         (OUT / n).write_text(t)
         print("wrote", n)
